@@ -16,7 +16,7 @@ theorem eval_ifc (X : Ctx p q) {srt : Fun.IfSort} {a b t1 e1 : Fun.Term} {ty : O
     (hc : Compiled q n (.ifc srt a b t1 e1 ty) c s)
     (he : EnvRel (GP p) q n (fv (.ifc srt a b t1 e1 ty)) env ρ0) (hr : CRel (GP p) q n k c ρ0)
     (hbd : BoundOn (tfvStmt s []) ρ0) (hag : AgreeOn (tfvStmt s []) ρ0 ρ) :
-    Chunk p q (R p q) true (.eval (.ifc srt a b t1 e1 ty) env k) ⟨s, ρ, out, n⟩ := by
+    Chunk p q (R p q) true true μ (.eval (.ifc srt a b t1 e1 ty) env k) ⟨s, ρ, out, n⟩ := by
   simp only [good, Bool.and_eq_true] at hg
   obtain ⟨⟨⟨⟨hga, hgb⟩, hgt⟩, hge⟩, _⟩ := hg
   obtain ⟨st, st', hcwc, hst, htn, hcn⟩ := hc
@@ -74,7 +74,7 @@ theorem eval_ifc (X : Ctx p q) {srt : Fun.IfSort} {a b t1 e1 : Fun.Term} {ty : O
             rcases hy with (h | h) | h <;> simp [h]
           have f1 : FSteps p (.eval (.ifc srt a b t1 e1 ty) env k)
               (.eval a env (.ifL srt b t1 e1 env :: k)) [] 1 := .one rfl
-          refine Chunk.prefix f1 (.refl _) rfl (fun _ => Nat.le_refl _) ?_
+          refine Chunk.prefix f1 (.refl _) rfl (fun _ => Nat.le_refl _) (fun h => .inr h) ?_
           refine operand_sim X.cod a hga (fun h => .ifc (compileSort srt) h B T E)
             (fun A hA => split_ifc1 hA) hca hst1 tna hea
             (hbd.mono fun y hy => mem_tfv_ifc.2 (.inl hy))
@@ -120,7 +120,7 @@ theorem eval_ifz (X : Ctx p q) {srt : Fun.IfSort} {a t1 e1 : Fun.Term} {ty : Opt
     (hc : Compiled q n (.ifz srt a t1 e1 ty) c s)
     (he : EnvRel (GP p) q n (fv (.ifz srt a t1 e1 ty)) env ρ0) (hr : CRel (GP p) q n k c ρ0)
     (hbd : BoundOn (tfvStmt s []) ρ0) (hag : AgreeOn (tfvStmt s []) ρ0 ρ) :
-    Chunk p q (R p q) true (.eval (.ifz srt a t1 e1 ty) env k) ⟨s, ρ, out, n⟩ := by
+    Chunk p q (R p q) true true μ (.eval (.ifz srt a t1 e1 ty) env k) ⟨s, ρ, out, n⟩ := by
   simp only [good, Bool.and_eq_true] at hg
   obtain ⟨⟨⟨hga, hgt⟩, hge⟩, _⟩ := hg
   obtain ⟨st, st', hcwc, hst, htn, hcn⟩ := hc
@@ -168,7 +168,7 @@ theorem eval_ifz (X : Ctx p q) {srt : Fun.IfSort} {a t1 e1 : Fun.Term} {ty : Opt
           rcases hy with h | h <;> simp [h]
         have f1 : FSteps p (.eval (.ifz srt a t1 e1 ty) env k)
             (.eval a env (.ifZ srt t1 e1 env :: k)) [] 1 := .one rfl
-        refine Chunk.prefix f1 (.refl _) rfl (fun _ => Nat.le_refl _) ?_
+        refine Chunk.prefix f1 (.refl _) rfl (fun _ => Nat.le_refl _) (fun h => .inr h) ?_
         refine operand_sim X.cod a hga (fun h => .ifz (compileSort srt) h T E)
           (fun A hA => split_ifz hA) hca hst1 tna hea
           (hbd.mono fun y hy => mem_tfv_ifz.2 (.inl hy))
@@ -210,7 +210,7 @@ theorem eval_print (X : Ctx p q) {nl : Bool} {a next : Fun.Term} {ty : Option Fu
     (hc : Compiled q n (.print nl a next ty) c s)
     (he : EnvRel (GP p) q n (fv (.print nl a next ty)) env ρ0) (hr : CRel (GP p) q n k c ρ0)
     (hbd : BoundOn (tfvStmt s []) ρ0) (hag : AgreeOn (tfvStmt s []) ρ0 ρ) :
-    Chunk p q (R p q) true (.eval (.print nl a next ty) env k) ⟨s, ρ, out, n⟩ := by
+    Chunk p q (R p q) true true μ (.eval (.print nl a next ty) env k) ⟨s, ρ, out, n⟩ := by
   simp only [good, Bool.and_eq_true] at hg
   obtain ⟨⟨hga, hgn⟩, _⟩ := hg
   obtain ⟨st, st', hcwc, hst, htn, hcn⟩ := hc
@@ -237,7 +237,7 @@ theorem eval_print (X : Ctx p q) {nl : Bool} {a next : Fun.Term} {ty : Option Fu
       have hen : EnvRel (GP p) q n (fv next) env ρ0 := he.sub fun y hy => by simp [fv, hy]
       have f1 : FSteps p (.eval (.print nl a next ty) env k)
           (.eval a env (.print nl next env :: k)) [] 1 := .one rfl
-      refine Chunk.prefix f1 (.refl _) rfl (fun _ => Nat.le_refl _) ?_
+      refine Chunk.prefix f1 (.refl _) rfl (fun _ => Nat.le_refl _) (fun h => .inr h) ?_
       refine operand_sim X.cod a hga (fun h => .print nl h N)
         (fun A hA => split_print hA) hca hst1 tna hea
         (hbd.mono fun y hy => mem_tfv_print.2 (.inl hy))
@@ -271,7 +271,7 @@ theorem eval_exit (X : Ctx p q) {u : Fun.Term} {ty : Option Fun.Ty}
     (hc : Compiled q n (.exit u ty) c s)
     (he : EnvRel (GP p) q n (fv (.exit u ty)) env ρ0)
     (hbd : BoundOn (tfvStmt s []) ρ0) (hag : AgreeOn (tfvStmt s []) ρ0 ρ) :
-    Chunk p q (R p q) true (.eval (.exit u ty) env k) ⟨s, ρ, out, n⟩ := by
+    Chunk p q (R p q) true true μ (.eval (.exit u ty) env k) ⟨s, ρ, out, n⟩ := by
   simp only [good, Bool.and_eq_true] at hg
   replace hg := hg.1
   obtain ⟨st, st', hcwc, hst, htn, hcn⟩ := hc
@@ -288,7 +288,7 @@ theorem eval_exit (X : Ctx p q) {u : Fun.Term} {ty : Option Fun.Ty}
       have tnu : TermNames u st := htn.of_sub (fun x hx => by simp [fv, hx])
         (fun x hx => by simp [binderNames, hx]) (fs_stepRel.refl st)
       have f1 : FSteps p (.eval (.exit u (some τ0)) env k) (.eval u env [.exitF]) [] 1 := .one rfl
-      refine Chunk.prefix f1 (.refl _) rfl (fun _ => Nat.le_refl _) ?_
+      refine Chunk.prefix f1 (.refl _) rfl (fun _ => Nat.le_refl _) (fun h => .inr h) ?_
       refine operand_sim X.cod u hg (fun h => .exit h (compileTy τ0))
         (fun A hA => split_exit hA) hca hst tnu (by simpa [fv] using he)
         (hbd.mono fun y hy => mem_tfv_exit.2 hy)
